@@ -1194,6 +1194,46 @@ example :
     failureLookup Hh fs.get [0x61, 0x2E] 1 1 false (some { v6 := false, bits := 24, addr := [192, 0, 3, 0] }) = none ∧
     failureLookup Hh fs.get [0x61, 0x2E] 1 1 true aud = none := by decide +kernel
 
+/-- **A zone reachability failure is filed in the class of the question that met it**
+(`Store.RecordZoneFailure` → `RecordZone`): the state under the zone hash of
+(canonical zone, that class) carries exactly that zone and class — by
+`route_identity_failureLookup` a question of another class is never answered from it. -/
+theorem recorded_zone_failure_keeps_class (H : Bytes → UInt64) (s : AFStore) (id : Nat) (zone : Bytes) (qclass : UInt16) :
+    ∃ f, loadZone H (recordZoneFailure H s id zone qclass).get (canonicalName zone) qclass = some f ∧
+      f.kind = FKind.zone ∧ f.name = canonicalName zone ∧ f.qclass = qclass := by
+  unfold recordZoneFailure
+  simp only
+  cases hl : loadZone H s.get (canonicalName zone) qclass with
+  | some f =>
+    simp only
+    refine ⟨f, hl, ?_⟩
+    unfold loadZone at hl
+    cases hs : s.get (failureZoneHash H (canonicalName zone) qclass) with
+    | none => simp [hs] at hl
+    | some e =>
+      simp only [hs] at hl
+      split at hl
+      · rename_i hc
+        simp only [Option.some.injEq] at hl
+        subst hl
+        simp only [Bool.and_eq_true, beq_iff_eq] at hc
+        exact ⟨hc.1.1, hc.1.2, hc.2⟩
+      · cases hl
+  | none =>
+    simp only
+    refine ⟨{ id := id, kind := FKind.zone, name := canonicalName zone, qtype := 0, qclass := qclass,
+              cd := false, scope := none, active := true }, ?_, rfl, rfl, rfl⟩
+    unfold loadZone AFStore.get
+    simp [List.find?]
+
+-- non-vacuity: every server of `example.` failed for a CH question: CH names below it fail, IN names do not
+example :
+    let Hh : Bytes → UInt64 := fun b => UInt64.ofNat (b.foldl (fun acc x => acc * 257 + x.toNat + 1) 0)
+    let fs := recordZoneFailure Hh [] 7 [0x45, 0x78, 0x2E] 3
+    (failureLookup Hh fs.get [0x61, 0x2E, 0x65, 0x78, 0x2E] 16 3 false none).map (·.id) = some 7 ∧
+    failureLookup Hh fs.get [0x61, 0x2E, 0x65, 0x78, 0x2E] 16 1 false none = none ∧
+    (failureLookup Hh fs.get [0x65, 0x58, 0x2E] 1 3 true none).map (·.id) = some 7 := by decide +kernel
+
 /-- `ecs.Build` defaults: ceilings /24 and /56, floors equal to the ceilings — with the
 default configuration no admitted scope is wider than what was forwarded. -/
 theorem buildPolicy_defaults :
